@@ -1,38 +1,69 @@
 /-
   C06 — no deadlock: every operation eventually returns.
 
-  Status: the FULL statement (`C06_no_deadlock_statement`: some thread is enabled in every
-  reachable configuration with unfinished threads, for disciplined clients) is kept as a
-  definition and NOT proved in Lean.  Proved:
-    * the reduction `C06_ranked_no_deadlock_partial`: in every reachable configuration, if
-      every waiting thread waits for a mutex that follows all it holds in the level order of
-      the current tree and no thread ended with an open cursor, some thread can step (uses
-      mutual exclusion, proved for all reachable configurations);
-    * `Lock()` is the only blocking primitive and every step terminates
-      (`C06_only_locks_block_partial`; the model's step is a total function, no retry loops);
-    * Delete's sibling lock order left -> child -> right (`C06_delete_lock_order_partial`).
-  What remains unproved is that every reachable configuration IS ranked.  That predicate is
-  evaluated by the model driver in every configuration of every replayed run and, on the
-  implementation, by the `lockorder` oracle in every state the scheduler passes through;
-  deadlock itself is DECIDED (not timed out) by the cooperative scheduler's wait-for graph
-  over all schedules of the catalogues and over random schedules.
+  PROVED (`C06_no_deadlock`): for every initial tree satisfying the structural invariant (in
+  particular a fresh tree of any even order ≥ 4), every finite family of client programs
+  that respect the cursor discipline (`Disciplined`: tree operations only while no cursor is
+  open, `Pair` only after `Scan`), and EVERY schedule: no thread ever panics, and in every
+  reachable configuration with an unfinished thread in which no thread has ended with a
+  cursor still open (`FinishedClean`, the client's side of C06), some thread is enabled.
+  Method: the concurrent structural invariant `CInv` (node identities distinct, parallel
+  arrays, occupancy with the one hole of a running Delete, the leaf chain, every
+  continuation's identities where it thinks they are) is inductive (`step_cinv`); it implies
+  that every waiting thread waits for a mutex ranked above all it holds (`sinv_ranked`, ranking
+  `posRank`: rootMutex, then nodes by level and pre-order position); a ranked configuration
+  with consistent owners is not deadlocked (`ranked_not_deadlocked`).
+  Also proved: `Lock()` is the only blocking primitive and every step terminates
+  (`C06_only_locks_block_partial`; the model's step is a total function, no retry loops);
+  Delete's sibling lock order left -> child -> right; the reduction for ANY ranking.
+  Modelled, not verified: Go's scheduler as interleaving at lock-acquisition granularity;
+  fairness (a thread that is enabled forever is eventually scheduled) is assumed, so "some
+  thread is enabled" is what "eventually returns" means here, together with: every step of
+  an enabled thread terminates and finishes or makes progress in its program.
+  On the implementation side the same rankedness predicate (with the level order of the
+  current tree) is evaluated by the `lockorder` oracle in every scheduler state and deadlock
+  is DECIDED by the wait-for graph over all schedules of the catalogues and random ones.
 -/
 import Gobptree.Proofs.ConcReach
 import Gobptree.Proofs.ConcRank
+import Gobptree.Proofs.CSFinal
 
 namespace Gobptree.Conc
 open Gobptree
 
 variable {K V : Type}
 
-/-- FULL statement (not proved): for clients that respect the cursor discipline (the model
-    stops a thread that violates it, see `misuse`), in every reachable configuration with an
-    unfinished thread some thread is enabled. -/
-def C06_no_deadlock_statement : Prop :=
-  ∀ (P : Params Nat) (tree : Tree Nat Nat) (progs : List (List (COp Nat Nat))) (c : Config Nat Nat),
-    4 ≤ P.order → P.order % 2 = 0 → tree.order = P.order →
-    Reachable (Config.init P tree progs) c → c.dead = false → c.unfinished = true →
-    c.enabledSet ≠ []
+/-- **C06: no thread ever panics.** Every reachable configuration of disciplined clients on a
+    tree satisfying the structural invariant has `dead = false`: no index out of range, no
+    `smallest()` of an empty node, no "both siblings empty", no bad merge, no nil cursor. -/
+theorem C06_no_panic (P : Params K) (tree : Tree K V) (progs : List (List (COp K V)))
+    (ht : TreeOk none tree) (ho : tree.order = P.order) (hp : PadOk P) (hd : Disciplined progs)
+    (c : Config K V) (hr : Reachable (Config.init P tree progs) c) : c.dead = false :=
+  (reachable_cinv P tree progs ht ho hp hd c hr).alive
+
+/-- **C06: every reachable configuration is ranked.** Every waiting thread waits for a mutex
+    that comes after all the mutexes it holds in the order `posRank` of the current tree. -/
+theorem C06_reachable_ranked (P : Params K) (tree : Tree K V) (progs : List (List (COp K V)))
+    (ht : TreeOk none tree) (ho : tree.order = P.order) (hp : PadOk P) (hd : Disciplined progs)
+    (c : Config K V) (hr : Reachable (Config.init P tree progs) c) : Ranked (posRank c.tree) c :=
+  sinv_ranked c (reachable_cinv P tree progs ht ho hp hd c hr).s
+
+/-- **C06: no deadlock.** In every reachable configuration (every initial tree satisfying the
+    structural invariant, every family of disciplined client programs, every schedule) in
+    which some thread is unfinished and no thread has ended with an open cursor, some thread
+    is enabled. -/
+theorem C06_no_deadlock (P : Params K) (tree : Tree K V) (progs : List (List (COp K V)))
+    (ht : TreeOk none tree) (ho : tree.order = P.order) (hp : PadOk P) (hd : Disciplined progs)
+    (c : Config K V) (hr : Reachable (Config.init P tree progs) c)
+    (hfin : FinishedClean c) (hu : c.unfinished = true) : c.enabledSet ≠ [] :=
+  let hinv := reachable_cinv P tree progs ht ho hp hd c hr
+  ranked_not_deadlocked (posRank c.tree) c hinv.s.owner (sinv_ranked c hinv.s) hfin hu
+
+/-- the hypotheses are satisfiable: a fresh tree of order 4 satisfies the structural
+    invariant, and a program mixing point operations with a cursor session is disciplined -/
+example : TreeOk none (Tree.new 4 : Tree Nat Nat) ∧
+    Disciplined [[COp.ins 1 1, COp.ns 0, COp.scan, COp.pair, COp.close, COp.del 1], [COp.get (K := Nat) (V := Nat) 1]] :=
+  ⟨new_treeOk 4 (by omega) (by omega), by intro p hp; simp at hp; rcases hp with rfl | rfl <;> rfl⟩
 
 /-- **C06 (partial): only a held mutex blocks.** A thread waiting for a mutex that nobody
     holds, a thread at a client/callback yield and a thread that has not started are all
@@ -79,10 +110,9 @@ theorem C06_delete_lock_order_partial (key : K) (frames : List Frame) (node inde
     thread is unfinished. Mutual exclusion (`reachable_owner`) is what turns "the wanted
     mutex is held" into "held by a thread that itself waits for a higher one".
 
-    What is NOT proved is that `Ranked (levelRank c.tree) c` holds in every reachable
-    configuration; that predicate is evaluated (`rankedB`, proved equivalent below) by the
-    model driver in every configuration of every replayed run, and on the implementation by
-    the `lockorder` oracle in every scheduler state. -/
+    (For the ranking `posRank` rankedness of every reachable configuration is proved:
+    `C06_reachable_ranked`. The level-order variant `levelRank` of this reduction is the
+    predicate the model driver and the implementation-side `lockorder` oracle evaluate.) -/
 theorem C06_ranked_no_deadlock_partial (P : Params K) (tree : Tree K V) (progs : List (List (COp K V)))
     (c : Config K V) (hr : Reachable (Config.init P tree progs) c) (hd : c.dead = false)
     (hrank : Ranked (levelRank c.tree) c) (hfin : FinishedClean c) (hu : c.unfinished = true) :
@@ -123,3 +153,6 @@ end Gobptree.Conc
 #print axioms Gobptree.Conc.C06_any_ranking_no_deadlock_partial
 #print axioms Gobptree.Conc.C06_only_locks_block_partial
 #print axioms Gobptree.Conc.C06_delete_lock_order_partial
+#print axioms Gobptree.Conc.C06_no_panic
+#print axioms Gobptree.Conc.C06_reachable_ranked
+#print axioms Gobptree.Conc.C06_no_deadlock
